@@ -448,7 +448,12 @@ func wide(r *evid.Run) {
 		var cur Case
 		w.Describe = func() any { return cur }
 		var transitions, traces int64
-		w.Done = func() { r.Transitions.Add(transitions); r.Traces.Add(traces); r.Evaluations.Add(traces); r.Nontrivial.Add(traces) }
+		w.Done = func() {
+			r.Transitions.Add(transitions)
+			r.Traces.Add(traces)
+			r.Evaluations.Add(traces)
+			r.Nontrivial.Add(traces)
+		}
 		return func(u int) {
 			un := units[u]
 			nameOp := func(i int) Op {
@@ -509,3 +514,15 @@ func wide(r *evid.Run) {
 	})
 	r.Bound("wide objects: families short/1KiB/long with N in %v / %v / %v names, written by tokens and by raw name values: for every ordered pair i<j a duplicate of name i as the j-th name (must be rejected), continuation, and a sibling object reusing the name; plus whole raw objects with a trailing duplicate of every i", fams[0].ns, fams[1].ns, fams[2].ns)
 }
+
+// CheckSeq runs a call sequence on a fresh Encoder and the model (used by C16).
+func CheckSeq(o *OptSet, alpha []Op, seq []int) (int, string) {
+	var cnt [2]int64
+	return runSeq(&sys{}, o, alpha, seq, 0, &cnt)
+}
+
+// Tok / Raw build ops for other packages.
+func Tok(label string, t jsontext.Token, kind byte, str, num string) Op {
+	return tok(label, t, kind, str, num, false)
+}
+func Raw(text string) Op { return raw(text) }
